@@ -128,6 +128,17 @@ def implies_nonneg(goal, pc, extra_facts=(), _depth=0, _split=0):
 CONTRACT_MODULES = ('time::',)
 
 
+def is_contract_fn(crate, path):
+    """the public conversion / arithmetic API of time.rs: its preconditions are obligations of each call site.
+    (A crate-private helper that merely lives in time.rs is an ordinary private helper.)"""
+    if not (path or '').startswith(CONTRACT_MODULES):
+        return False
+    b = crate.body(path)
+    if b is None:
+        return True
+    return not str(b.raw.get('vis', '')).startswith('Restricted') or bool(b.raw.get('impl_trait'))
+
+
 DERIVE_MACROS = {'Clone', 'Debug', 'PartialEq', 'PartialOrd', 'Eq', 'Ord', 'From', 'Into', 'Display', 'Error', 'Copy',
                  'Default', 'Hash', 'Add', 'AddAssign', 'Sub', 'Sum'}
 
@@ -165,7 +176,7 @@ def is_private_helper(crate, b):
         return False
     if not str(raw.get('vis', '')).startswith('Restricted'):
         return False
-    if b.path.startswith(CONTRACT_MODULES):
+    if is_contract_fn(crate, b.path):
         return False
     if any(n.get('k') == 'Loop' for n in b.walk()):
         # functions with loops are analysed on their own -- unless every loop reduces to a search / sum / max / min,
@@ -197,7 +208,7 @@ def collect(crate, body):
             # preconditions are obligations of each call site, and (b) private helpers, which are only ever reached
             # from inside the crate: their sites are analysed in each calling context (with the caller's path condition)
             cb = crate.body(e['body']) if e['body'] else None
-            if not ((e['body'] or '').startswith(CONTRACT_MODULES) and len(e['via']) == 1) and not (cb is not None and is_private_helper(crate, cb)):
+            if not (is_contract_fn(crate, e['body']) and len(e['via']) == 1) and not (cb is not None and is_private_helper(crate, cb)):
                 continue
         node = e['node']
         s = dict(kind=k, node=node, where=loc(node), pc=e['pc'], fn=body.path, via=e['via'], mac=node.get('mac') or [],
@@ -237,7 +248,7 @@ def collect(crate, body):
         # sites of the time.rs conversion API keep the callee in their key (the obligation belongs to the call site);
         # sites reached through a private helper are keyed by the function they are analysed in (helper extraction /
         # inlining does not change a key)
-        via = ('@' + e['via'][-1][0].split('::')[-1]) if e['via'] and (e['body'] or '').startswith(CONTRACT_MODULES) else ''
+        via = ('@' + e['via'][-1][0].split('::')[-1]) if e['via'] and is_contract_fn(crate, e['body']) else ''
         if k == 'panic':
             # keyed by the outermost user macro and its ordinal in the function, not by the condition's text
             mac = (s['mac'][-1] if s['mac'] else 'panic')
